@@ -480,7 +480,18 @@ fn to_packet(p: &SimPkt) -> pr::Packet {
                 *retain,
                 false,
             ),
-            None,
+            // every other retained publish comes from an MQTT 5 publisher and carries
+            // properties (no expiry): it is retained and replayed like any other
+            // (decided by the payload, not by a choice)
+            if *retain && payload.last().map_or(false, |b| b % 2 == 1) {
+                Some(pr::PublishProperties {
+                    user_properties: vec![("k".to_string(), "v".to_string())],
+                    content_type: Some("text/plain".to_string()),
+                    ..Default::default()
+                })
+            } else {
+                None
+            },
         ),
         SimPkt::Subscribe {
             pkid,
